@@ -410,42 +410,108 @@ Proof.
     + eapply do_loop_resp_some; eauto.
 Qed.
 
+Lemma finish_spec : forall en ro ls h,
+  match finish en ro ls h with
+  | Returned ro' e ls' h' => ro' = ro /\ e = resp_err ro /\ ls' = ls /\ h' = h /\ (en = EMust -> e = None)
+  | Panicked x ls' h' => en = EMust /\ resp_err ro = Some x /\ ls' = ls /\ h' = h
+  | OutOfFuel => False
+  end.
+Proof.
+  intros en ro ls h. unfold finish. destruct en; destruct (resp_err ro) eqn:E; cbn; repeat split; auto; discriminate.
+Qed.
+
+(* the response after the error hook ran (if it ran and returned) *)
+Definition after_hook (cfg : config) (ro : option response) : option response :=
+  match resp_err ro, c_onerror cfg with
+  | Some _, Some hb => match h_set hb, ro with Some v, Some r => Some (set_err v r) | _, _ => ro end
+  | _, _ => ro
+  end.
+
+Lemma after_hook_some : forall cfg ro, ro <> None -> after_hook cfg ro <> None.
+Proof.
+  intros cfg ro N. unfold after_hook. destruct (resp_err ro); [|exact N]. destruct (c_onerror cfg) as [hb|]; [|exact N].
+  destruct (h_set hb); [|exact N]. destruct ro; [discriminate|exact N].
+Qed.
+
+(* characterisation of run for the verb-style entry points *)
+Lemma run_verb_spec : forall fl p, p_entry p <> EDo ->
+  match do_call fl (p_cfg p) (p_attempts p) with
+  | DoOutOfFuel => run fl p = OutOfFuel
+  | DoRet ro e0 ls =>
+    let hook_runs := is_some (resp_err ro) && is_some (c_onerror (p_cfg p)) in
+    let h := if hook_runs then 1%nat else 0%nat in
+    (exists x hb, hook_runs = true /\ c_onerror (p_cfg p) = Some hb /\ h_panic hb = Some x /\ run fl p = Panicked x ls 1) \/
+    ((forall hb, hook_runs = true -> c_onerror (p_cfg p) = Some hb -> h_panic hb = None) /\
+     run fl p = finish (p_entry p) (after_hook (p_cfg p) ro) ls h)
+  end.
+Proof.
+  intros fl p N. unfold run. destruct (do_call fl (p_cfg p) (p_attempts p)) as [ro e0 ls|]; [|reflexivity].
+  unfold after_hook. cbn zeta.
+  destruct (p_entry p) eqn:En; [contradiction| |];
+  (destruct (resp_err ro) eqn:E; cbn;
+   [ destruct (c_onerror (p_cfg p)) as [hb|] eqn:H; cbn;
+     [ destruct (h_panic hb) as [x|] eqn:P;
+       [ left; exists x, hb; auto
+       | right; split; [intros hb' _ Hb; inversion Hb; subst; exact P|reflexivity] ]
+     | right; split; [intros hb' X; discriminate|reflexivity] ]
+   | right; split; [intros hb' X; discriminate|reflexivity] ]).
+Qed.
+
 (* A call always returns a non-nil response *)
 Lemma resp_never_nil : forall fl p ro e ls h, run fl p = Returned ro e ls h -> ro <> None.
 Proof.
-  intros fl p ro e ls h H. unfold run in H.
-  destruct (do_call fl (p_cfg p) (p_attempts p)) as [ro0 e0 ls0|] eqn:D; [|discriminate].
-  pose proof (do_call_resp_some _ _ _ _ _ _ D) as N.
-  destruct (p_entry p); [inversion H; subst; auto| |].
-  - destruct (resp_err ro0); inversion H; subst; auto.
-  - destruct (resp_err ro0); inversion H; subst; auto.
+  intros fl p ro e ls h H.
+  destruct (p_entry p) eqn:En.
+  - unfold run in H. rewrite En in H. destruct (do_call fl (p_cfg p) (p_attempts p)) as [ro0 e0 ls0|] eqn:D; [|discriminate].
+    inversion H; subst. eapply do_call_resp_some; eauto.
+  - pose proof (run_verb_spec fl p) as S. rewrite En in S. specialize (S ltac:(discriminate)).
+    destruct (do_call fl (p_cfg p) (p_attempts p)) as [ro0 e0 ls0|] eqn:D; [|congruence].
+    pose proof (do_call_resp_some _ _ _ _ _ _ D) as N.
+    destruct S as [(x & hb & _ & _ & _ & R)|[_ R]]; [congruence|]. rewrite R in H.
+    pose proof (finish_spec ESend (after_hook (p_cfg p) ro0) ls0 (if is_some (resp_err ro0) && is_some (c_onerror (p_cfg p)) then 1%nat else 0%nat)) as F.
+    rewrite H in F. destruct F as (F1 & _). subst. apply after_hook_some; exact N.
+  - pose proof (run_verb_spec fl p) as S. rewrite En in S. specialize (S ltac:(discriminate)).
+    destruct (do_call fl (p_cfg p) (p_attempts p)) as [ro0 e0 ls0|] eqn:D; [|congruence].
+    pose proof (do_call_resp_some _ _ _ _ _ _ D) as N.
+    destruct S as [(x & hb & _ & _ & _ & R)|[_ R]]; [congruence|]. rewrite R in H.
+    pose proof (finish_spec EMust (after_hook (p_cfg p) ro0) ls0 (if is_some (resp_err ro0) && is_some (c_onerror (p_cfg p)) then 1%nat else 0%nat)) as F.
+    rewrite H in F. destruct F as (F1 & _). subst. apply after_hook_some; exact N.
 Qed.
 
-(* ... whose recorded error equals the returned error (verb-style entry points) *)
+(* ... whose recorded error equals the returned error (verb-style entry points) - even when the
+   error hook assigned resp.Err *)
 Lemma err_equals_resp_err : forall fl p ro e ls h,
   run fl p = Returned ro e ls h -> p_entry p <> EDo -> e = resp_err ro.
 Proof.
-  intros fl p ro e ls h H N. unfold run in H.
-  destruct (do_call fl (p_cfg p) (p_attempts p)) as [ro0 e0 ls0|]; [|discriminate].
-  destruct (p_entry p); [contradiction| |].
-  - destruct (resp_err ro0) eqn:E; inversion H; subst; auto.
-  - destruct (resp_err ro0) eqn:E; inversion H; subst; auto.
+  intros fl p ro e ls h H N. pose proof (run_verb_spec fl p N) as S.
+  destruct (do_call fl (p_cfg p) (p_attempts p)) as [ro0 e0 ls0|]; [|congruence].
+  destruct S as [(x & hb & _ & _ & _ & R)|[_ R]]; [congruence|]. rewrite R in H.
+  match type of H with finish ?en ?r ?l ?hh = _ => pose proof (finish_spec en r l hh) as F end.
+  rewrite H in F. destruct F as (F1 & F2 & _). subst. reflexivity.
 Qed.
 
-(* a Must-style call panics exactly with the recorded error, and returns only when there is none *)
+(* a Must-style call returns only without error; it panics with the recorded error (as left by
+   the error hook) - or with whatever the error hook itself panicked with *)
 Lemma must_panics_with_resp_err : forall fl p,
   p_entry p = EMust ->
   match run fl p with
-  | Panicked x ls h => exists ro e0, do_call fl (p_cfg p) (p_attempts p) = DoRet ro e0 ls /\ resp_err ro = Some x
+  | Panicked x ls h =>
+      exists ro e0, do_call fl (p_cfg p) (p_attempts p) = DoRet ro e0 ls /\
+        (resp_err (after_hook (p_cfg p) ro) = Some x \/
+         exists hb, resp_err ro <> None /\ c_onerror (p_cfg p) = Some hb /\ h_panic hb = Some x)
   | Returned ro e ls h => e = None /\ resp_err ro = None
   | OutOfFuel => do_call fl (p_cfg p) (p_attempts p) = DoOutOfFuel
   end.
 Proof.
-  intros fl p M. unfold run. rewrite M.
-  destruct (do_call fl (p_cfg p) (p_attempts p)) as [ro0 e0 ls0|] eqn:D; [|reflexivity].
-  destruct (resp_err ro0) eqn:E.
-  - exists ro0, e0. auto.
-  - auto.
+  intros fl p M. pose proof (run_verb_spec fl p) as S. rewrite M in S. specialize (S ltac:(discriminate)).
+  destruct (do_call fl (p_cfg p) (p_attempts p)) as [ro0 e0 ls0|] eqn:D; [|rewrite S; reflexivity].
+  destruct S as [(x & hb & Hr & Hb & Hp & R)|[_ R]]; rewrite R.
+  - exists ro0, e0. split; [reflexivity|]. right. exists hb. split; [|auto].
+    destruct (resp_err ro0); [discriminate|discriminate Hr].
+  - match goal with |- match finish ?en ?r ?l ?hh with _ => _ end => pose proof (finish_spec en r l hh) as F; destruct (finish en r l hh) end.
+    + destruct F as (F1 & F2 & _ & _ & F5). subst. specialize (F5 eq_refl). split; [exact F5|]. exact F5.
+    + destruct F as (_ & F2 & F3 & _). subst. exists ro0, e0. split; [reflexivity|]. left. exact F2.
+    + contradiction.
 Qed.
 
 (* at the Do exit: whatever error do() returned is recorded in the response *)
@@ -460,7 +526,8 @@ Proof.
     inversion H; subst. eapply IH; eauto.
 Qed.
 
-(* the error hook: exactly once for a verb-style call that ends in error, never otherwise *)
+(* the error hook: exactly once for a verb-style call that ends in error, never otherwise
+   ("ends in error" = the response of Do() carries an error) - whatever the hook itself does *)
 Definition hooks_of (o : outcome) : nat :=
   match o with Returned _ _ _ h => h | Panicked _ _ h => h | OutOfFuel => 0%nat end.
 
@@ -474,18 +541,31 @@ Lemma on_error_exactly_once : forall fl p,
   hooks_of (run fl p) =
   match p_entry p with
   | EDo => 0%nat
-  | _ => if ends_in_error fl p && c_onerror (p_cfg p) then 1%nat else 0%nat
+  | _ => if ends_in_error fl p && is_some (c_onerror (p_cfg p)) then 1%nat else 0%nat
   end.
 Proof.
-  intros fl p. unfold run, ends_in_error.
-  destruct (do_call fl (p_cfg p) (p_attempts p)) as [ro0 e0 ls0|]; cbn.
-  - destruct (p_entry p); cbn; auto; destruct (resp_err ro0); cbn; auto.
-  - destruct (p_entry p); reflexivity.
+  intros fl p. destruct (p_entry p) eqn:En.
+  - unfold run. rewrite En. destruct (do_call fl (p_cfg p) (p_attempts p)); reflexivity.
+  - pose proof (run_verb_spec fl p) as S. rewrite En in S. specialize (S ltac:(discriminate)). unfold ends_in_error.
+    destruct (do_call fl (p_cfg p) (p_attempts p)) as [ro0 e0 ls0|]; [|rewrite S; reflexivity].
+    destruct S as [(x & hb & Hr & _ & _ & R)|[_ R]]; rewrite R; [cbn; rewrite Hr; reflexivity|].
+    match goal with |- hooks_of (finish ?en ?r ?l ?hh) = _ => pose proof (finish_spec en r l hh) as F; destruct (finish en r l hh) end.
+    + destruct F as (_ & _ & _ & F4 & _). cbn. exact F4.
+    + destruct F as (_ & _ & _ & F4). cbn. exact F4.
+    + contradiction.
+  - pose proof (run_verb_spec fl p) as S. rewrite En in S. specialize (S ltac:(discriminate)). unfold ends_in_error.
+    destruct (do_call fl (p_cfg p) (p_attempts p)) as [ro0 e0 ls0|]; [|rewrite S; reflexivity].
+    destruct S as [(x & hb & Hr & _ & _ & R)|[_ R]]; rewrite R; [cbn; rewrite Hr; reflexivity|].
+    match goal with |- hooks_of (finish ?en ?r ?l ?hh) = _ => pose proof (finish_spec en r l hh) as F; destruct (finish en r l hh) end.
+    + destruct F as (_ & _ & _ & F4 & _). cbn. exact F4.
+    + destruct F as (_ & _ & _ & F4). cbn. exact F4.
+    + contradiction.
 Qed.
 
-(* "ends in error" is the error the caller gets *)
+(* without a hook that rewrites resp.Err: "ends in error" is the error the caller gets *)
 Lemma ends_in_error_iff : forall fl p,
   p_entry p <> EDo ->
+  (forall hb, c_onerror (p_cfg p) = Some hb -> h_set hb = None /\ h_panic hb = None) ->
   (ends_in_error fl p = true <->
    match run fl p with
    | Returned _ e _ _ => e <> None
@@ -493,10 +573,19 @@ Lemma ends_in_error_iff : forall fl p,
    | OutOfFuel => False
    end).
 Proof.
-  intros fl p N. unfold run, ends_in_error.
-  destruct (do_call fl (p_cfg p) (p_attempts p)) as [ro0 e0 ls0|]; [|split; [discriminate|tauto]].
-  destruct (p_entry p); [contradiction| |]; destruct (resp_err ro0); cbn; split; auto; try discriminate; try tauto.
-  all: intro H; contradiction H; reflexivity.
+  intros fl p N Hk. pose proof (run_verb_spec fl p N) as S. unfold ends_in_error.
+  destruct (do_call fl (p_cfg p) (p_attempts p)) as [ro0 e0 ls0|]; [|rewrite S; split; [discriminate|tauto]].
+  destruct S as [(x & hb & _ & Hb & Hp & _)|[_ R]].
+  { destruct (Hk hb Hb) as [_ X]. congruence. }
+  assert (after_hook (p_cfg p) ro0 = ro0) as AH.
+  { unfold after_hook. destruct (resp_err ro0); [|reflexivity]. destruct (c_onerror (p_cfg p)) as [hb|] eqn:Hb; [|reflexivity].
+    destruct (Hk hb eq_refl) as [X _]. rewrite X. reflexivity. }
+  rewrite R, AH.
+  match goal with |- _ <-> match finish ?en ?r ?l ?hh with _ => _ end => pose proof (finish_spec en r l hh) as F; destruct (finish en r l hh) end.
+  - destruct F as (_ & F2 & _). rewrite F2. destruct (resp_err ro0); cbn; split; intro X; try discriminate; auto;
+    contradiction X; reflexivity.
+  - destruct F as (_ & F2 & _). rewrite F2. cbn. tauto.
+  - contradiction.
 Qed.
 
 (* ---------- shape of the invocation log ---------- *)
@@ -686,12 +775,31 @@ Proof.
        apply filter_In in I; apply I.
 Qed.
 
-Lemma retry_decision_events : forall cfg a n e again l, retry_decision cfg a n e = (again, l) -> l = [] \/ l = [EvCond].
+Lemma eval_conds_rev_filter : forall vs i b l (f : event -> bool), eval_conds_rev vs i = (b, l) ->
+  (forall k, f (EvCond k) = false) -> filter f l = [].
 Proof.
-  intros cfg a n e again l H. unfold retry_decision in H.
-  destruct (c_retry cfg) as [[mx conds]|]; [|inversion H; auto].
-  destruct ((n >=? mx) && (mx >=? 0)); [inversion H; auto|].
-  destruct conds; inversion H; auto.
+  induction vs as [|v rest IH]; intros i b l f H F; cbn in H.
+  - inversion H; reflexivity.
+  - destruct v; [inversion H; subst; cbn; rewrite F; reflexivity|].
+    destruct (eval_conds_rev rest (pred i)) as [b1 l1] eqn:E. inversion H; subst. cbn. rewrite F. eapply IH; eauto.
+Qed.
+
+Lemma hook_events_filter : forall nh (f : event -> bool), (forall k, f (EvHook k) = false) -> filter f (hook_events nh) = [].
+Proof.
+  intros nh f F. unfold hook_events. induction (rev (seq 0 nh)) as [|k ks IH]; cbn; [reflexivity|]. rewrite F. exact IH.
+Qed.
+
+Lemma retry_decision_filter : forall cfg a n e again l (f : event -> bool), retry_decision cfg a n e = (again, l) ->
+  (forall k, f (EvCond k) = false) -> (forall k, f (EvHook k) = false) -> filter f l = [].
+Proof.
+  intros cfg a n e again l f H F1 F2. unfold retry_decision in H.
+  destruct (c_retry cfg) as [[mx nh]|]; [|inversion H; reflexivity].
+  destruct (context_canceled a e || (n >=? mx) && (mx >=? 0)); [inversion H; reflexivity|].
+  destruct (a_conds a) as [|v vs] eqn:C.
+  - destruct (is_some e); inversion H; subst; cbn; [apply hook_events_filter; exact F2|reflexivity].
+  - destruct (eval_conds (v :: vs)) as [need l_c] eqn:E. unfold eval_conds in E.
+    pose proof (eval_conds_rev_filter _ _ _ _ f E F1) as X.
+    destruct need; inversion H; subst; [rewrite filter_app', X, hook_events_filter by exact F2; reflexivity|exact X].
 Qed.
 
 (* Request middleware runs in registration order before the request is built and sent *)
@@ -727,15 +835,13 @@ Proof.
     split; [reflexivity|]. split; [rewrite <- (app_nil_r (l_rt ++ l_req)); apply K; reflexivity|].
     split; [lia|]. split; [auto|]. intros y Hy; discriminate. }
   destruct (retry_decision cfg a n e) as [again l_c] eqn:D.
-  pose proof (retry_decision_events _ _ _ _ _ _ D) as Dl.
-  assert (filter is_ud l_c = []) as Dc by (destruct Dl; subst; reflexivity).
-  destruct again; inversion H; subst.
-  - exists (length (a_ud a)), ((l_rt ++ l_req) ++ l_c ++ [EvHook]).
-    split; [rewrite <- !app_assoc; reflexivity|]. split; [apply K; rewrite filter_app', Dc; reflexivity|].
-    split; [lia|]. split; [auto|]. intros y Hy; discriminate.
-  - exists (length (a_ud a)), ((l_rt ++ l_req) ++ l_c).
-    split; [rewrite <- !app_assoc; reflexivity|]. split; [apply K; exact Dc|].
-    split; [lia|]. split; [auto|]. intros y Hy; discriminate.
+  pose proof (retry_decision_filter _ _ _ _ _ _ is_ud D (fun _ => eq_refl) (fun _ => eq_refl)) as Dc.
+  assert (exists st', (st, l) = (st', l_ud ++ (l_rt ++ l_req) ++ l_c)) as [st' E].
+  { destruct again; [destruct (a_sleep_cancel a)|]; inversion H; subst; rewrite <- !app_assoc; eexists; reflexivity. }
+  inversion E; subst.
+  exists (length (a_ud a)), ((l_rt ++ l_req) ++ l_c).
+  split; [reflexivity|]. split; [apply K; exact Dc|].
+  split; [lia|]. split; [auto|]. intros y Hy; discriminate.
 Qed.
 
 (* response middleware runs after every attempt *)
@@ -770,16 +876,14 @@ Proof.
     - exists k. split; [exact K1|]. split; [exact A1|]. split; [exact K4|]. intros _. eauto.
     - rewrite A2. split; [|exact W3]. intros F G. destruct (W4 F G) as [X Y]. split; [exact X|apply A3; exact Y]. }
   destruct (retry_decision cfg a n e) as [again l_c] eqn:D.
-  pose proof (retry_decision_events _ _ _ _ _ _ D) as Dl.
-  assert (filter is_req l_c = [] /\ filter is_cli l_c = []) as [Dr Dc] by (destruct Dl; subst; auto).
-  destruct again; inversion H; subst.
-  - destruct (K (l_c ++ [EvHook])) as (A1 & A2 & A3); [rewrite filter_app', Dr; reflexivity|rewrite filter_app', Dc; reflexivity|].
-    rewrite <- !app_assoc in *. split.
-    + exists k. split; [exact K1|]. split; [exact A1|]. split; [exact K4|]. intro X. specialize (K3 eq_refl). lia.
-    + rewrite A2. split; [|exact W3]. intros F G. destruct (W4 F G) as [X Y]. split; [exact X|apply A3; exact Y].
-  - destruct (K l_c Dr Dc) as (A1 & A2 & A3). rewrite <- !app_assoc in *. split.
-    + exists k. split; [exact K1|]. split; [exact A1|]. split; [exact K4|]. intro X. specialize (K3 eq_refl). lia.
-    + rewrite A2. split; [|exact W3]. intros F G. destruct (W4 F G) as [X Y]. split; [exact X|apply A3; exact Y].
+  pose proof (retry_decision_filter _ _ _ _ _ _ is_req D (fun _ => eq_refl) (fun _ => eq_refl)) as Dr.
+  pose proof (retry_decision_filter _ _ _ _ _ _ is_cli D (fun _ => eq_refl) (fun _ => eq_refl)) as Dc.
+  assert (exists st', (st, l) = (st', l_ud ++ l_rt ++ l_req ++ l_c)) as [st' E].
+  { destruct again; [destruct (a_sleep_cancel a)|]; inversion H; subst; rewrite <- !app_assoc; eexists; reflexivity. }
+  inversion E; subst.
+  destruct (K l_c Dr Dc) as (A1 & A2 & A3). split.
+  - exists k. split; [exact K1|]. split; [exact A1|]. split; [exact K4|]. intro X. specialize (K3 eq_refl). lia.
+  - rewrite A2. split; [|exact W3]. intros F G. destruct (W4 F G) as [X Y]. split; [exact X|apply A3; exact Y].
 Qed.
 
 (* the logs of do() are, one by one, the logs of the iterations that ran *)
@@ -817,7 +921,7 @@ Proof.
   destruct again; [|discriminate]. unfold retry_decision in D.
   destruct (c_retry cfg) as [[mx conds]|]; [|discriminate].
   exists mx, conds. split; [reflexivity|].
-  destruct ((n >=? mx) && (mx >=? 0)) eqn:G; [discriminate|]. lia.
+  destruct ((n >=? mx) && (mx >=? 0)) eqn:G; [rewrite orb_true_r in D; discriminate|]. lia.
 Qed.
 
 Lemma fuel_suffices : forall fl cfg atts n prev mx conds,
@@ -1093,7 +1197,8 @@ Proof.
   specialize (St N).
   destruct e_mw as [x|].
   - inversion H; subst. rewrite D3; cbn; exact St.
-  - destruct (retry_decision cfg a n e0) as [again l_c]. destruct again; inversion H; subst. rewrite D3; cbn; exact St.
+  - destruct (retry_decision cfg a n e0) as [again l_c].
+    destruct again; [destruct (a_sleep_cancel a)|]; inversion H; subst; rewrite D3; cbn; try exact St; discriminate.
 Qed.
 
 (* ---------- binding at the level of one round trip and of a whole pass-through call ---------- *)
@@ -1183,7 +1288,7 @@ Qed.
 
 (* digest: after a successful re-send the pinned middleware leaves the 401's error result bound
    and binds nothing from the 200; the repaired one re-binds *)
-Definition digest_witness_cfg : config := mkCfg (mkTargets true true false) true false None None false.
+Definition digest_witness_cfg : config := mkCfg (mkTargets true true false) true None None None false.
 Definition digest_witness_resp : response :=   (* the 401 after auto-read and binding *)
   mkResp true 401 None None true false EReq.
 Definition digest_witness : digest_oracle :=
@@ -1202,8 +1307,8 @@ Proof. vm_compute. repeat split; reflexivity. Qed.
 (* do(): a wrapper that returns (nil, err) on a request with a retry option made the pinned
    loop dereference nil; the repaired loop retries with a response in hand *)
 Definition nil_wrapper_attempt : attempt :=
-  mkAttempt [] None [WShort true None (Some 1)] None (TFail 2) [] [] false.
-Definition retry_cfg : config := mkCfg (mkTargets false false false) true false (Some (1, false)) None false.
+  mkAttempt [] None [WShort true None (Some 1)] None (TFail 2) [] [] [] false false.
+Definition retry_cfg : config := mkCfg (mkTargets false false false) true None (Some (1, 1%nat)) None false.
 
 Lemma do_pinned_nil_deref : do_first_pinned Fixed retry_cfg nil_wrapper_attempt = PNilDeref.
 Proof. vm_compute. reflexivity. Qed.
@@ -1216,5 +1321,5 @@ Qed.
 
 Lemma nil_wrapper_fixed :
   run Fixed (mkProg ESend retry_cfg [nil_wrapper_attempt; nil_wrapper_attempt]) =
-  Returned (Some (set_err (Some 1) fresh_resp)) (Some 1) [[EvWIn 0; EvWOut 0; EvHook]; [EvWIn 0; EvWOut 0]] 0.
+  Returned (Some (set_err (Some 1) fresh_resp)) (Some 1) [[EvWIn 0; EvWOut 0; EvHook 0]; [EvWIn 0; EvWOut 0]] 0.
 Proof. vm_compute. reflexivity. Qed.
